@@ -10,6 +10,7 @@
 #include <cstring>
 #include <memory>
 #include <stdexcept>
+#include <unistd.h>
 
 using namespace OP2Utility;
 
@@ -128,17 +129,34 @@ struct Exec {
 			content.insert(content.end(), va.begin(), va.end());
 			content.insert(content.end(), w.S.begin(), w.S.end());
 			content.insert(content.end(), vb.begin(), vb.end());
-			disk::put("src.bin", content);
+			// how the source file is spelled: plainly, with "./", through a real directory and "..", absolutely, through a directory
+			// SYMLINK and ".." (the textual "a/.." rule does not hold there; a decoy sits where that rule would lead), or by a file symlink
+			std::string srcPath = "src.bin";
+			switch (plan.envu("srcspell", 0) % 6) {
+			case 1: disk::put("src.bin", content); srcPath = "./src.bin"; break;
+			case 2: disk::put("src.bin", content); disk::mkdirs("_sd"); srcPath = "_sd/../src.bin"; break;
+			case 3: disk::put("src.bin", content); srcPath = disk::scratchRoot() + "/src.bin"; break;
+			case 4: {
+				disk::put("_rd/src.bin", content); disk::mkdirs("_rd/inner");
+				if (symlink("_rd/inner", "_ln") != 0) throw std::runtime_error("symlink failed");
+				std::vector<uint8_t> decoy(content.size()); for (size_t q = 0; q < decoy.size(); ++q) decoy[q] = static_cast<uint8_t>(~content[q]);
+				disk::put("src.bin", decoy);
+				srcPath = "_ln/../src.bin";
+				break;
+			}
+			case 5: disk::put("_real.bin", content); if (symlink("_real.bin", "src.bin") != 0) throw std::runtime_error("symlink failed"); break;
+			default: disk::put("src.bin", content); break;
+			}
 			Armed arm;
 			if (b == "file") {
-				auto r = std::make_unique<Stream::FileReader>("src.bin");
+				auto r = std::make_unique<Stream::FileReader>(srcPath);
 				a->kind = Kind::File; a->file = r.get(); a->obj = std::move(r);
 			} else if (b == "fileslice") {
-				Stream::FileReader f("src.bin");
+				Stream::FileReader f(srcPath);
 				auto r = std::make_unique<Stream::FileSliceReader>(f.Slice(pa, w.S.size()));
 				a->kind = Kind::FSlice; a->fslice = r.get(); a->obj = std::move(r);
 			} else if (b == "slice2") {
-				Stream::FileReader f("src.bin");
+				Stream::FileReader f(srcPath);
 				uint64_t h = pa / 2;
 				Stream::FileSliceReader outer = f.Slice(h, (pa - h) + w.S.size() + pb / 2);
 				auto r = std::make_unique<Stream::FileSliceReader>(outer.Slice(pa - h, w.S.size()));
@@ -592,6 +610,7 @@ struct StreamActors : Family {
 		static const char* B12[] = {"mem", "mem", "memslice", "fileslice", "slice2"};
 		static const char* B13[] = {"mem", "file", "memslice", "fileslice", "slice2", "file", "fileslice"};
 		p.setenv("backend", c13 ? B13[r.below(7)] : B12[r.below(5)]);
+		p.setenv("srcspell", r.below(6));
 		p.setenv("pad_a", r.below(40));
 		p.setenv("pad_b", r.below(40));
 		p.setenv("heap", r.below(256));
